@@ -166,6 +166,10 @@ type hdrSpec struct {
 	AppHash  []byte
 	CommitDH int64 // commit height - header height (0 = consistent)
 	BadBlock bool  // commit.BlockID.Hash != header hash (votes sign the commit's block id)
+	// deposit-header dimensions
+	CommitHash []byte // non-nil: Commit.BlockID.Hash is THIS value (votes sign the commit's block id), whatever the body hashes to
+	CommitMode string // "" = one CommitSig per validator (Sigs) | "empty" = commit without any signature entry | "nil" = no commit at all
+	TimeShift  int64  // seconds added to the header time: same height, other body
 	Memo     bool  // keep the encoded header for re-use (part B revisits the same headers on many paths)
 }
 
@@ -183,12 +187,24 @@ func (h hdrSpec) String() string {
 	if h.BadBlock {
 		s += " badblock"
 	}
+	if h.CommitHash != nil {
+		s += fmt.Sprintf(" commithash=%x", short(h.CommitHash))
+	}
+	if h.CommitMode != "" {
+		s += " commit=" + h.CommitMode
+	}
+	if h.TimeShift != 0 {
+		s += fmt.Sprintf(" timeshift=%d", h.TimeShift)
+	}
 	return s
 }
 
 // power of the validators whose slot carries a VALID precommit for the block, counted once per validator.
 func (h hdrSpec) validPower() int64 {
 	var p int64
+	if h.CommitMode != "" {
+		return 0
+	}
 	for i, k := range h.Sigs {
 		if k == sCommit {
 			p += h.Vals.powers[i]
@@ -215,7 +231,7 @@ func header33(h hdrSpec) tm33.Header {
 		Version:            version.Consensus{Block: version.Protocol(h.Ver), App: 1},
 		ChainID:            h.ChainID,
 		Height:             h.Height,
-		Time:               hdrTime(h.Height),
+		Time:               hdrTime(h.Height).Add(time.Duration(h.TimeShift) * time.Second),
 		LastBlockID:        tm33.BlockID{Hash: fill(1), PartsHeader: tm33.PartSetHeader{Total: 1, Hash: fill(2)}},
 		LastCommitHash:     fill(3),
 		DataHash:           fill(4),
@@ -273,7 +289,20 @@ func build33(h hdrSpec, signChainID string) (tm33.Header, *tm33.Commit, []*tm33.
 	if h.BadBlock {
 		bid.Hash = fill(9)
 	}
+	if h.CommitHash != nil {
+		bid.Hash = h.CommitHash
+	}
 	order := h.Vals.order(h.Ver)
+	if h.CommitMode != "" {
+		vals := make([]*tm33.Validator, len(order))
+		for slot, ki := range order {
+			vals[slot] = tm33.NewValidator(h.Vals.keys[ki].pub, h.Vals.powers[ki])
+		}
+		if h.CommitMode == "nil" {
+			return hdr, nil, vals, hh
+		}
+		return hdr, tm33.NewCommit(h.Height+h.CommitDH, 0, bid, nil), vals, hh
+	}
 	sigs := make([]tm33.CommitSig, len(order))
 	ts := hdrTime(h.Height).Add(time.Second)
 	for slot, ki := range order {
